@@ -82,7 +82,7 @@ func runCase(rec *mon.Recorder, c int) {
 	// handed to the constructor in arbitrary order
 	newq := func(max bool, initial int) *mq {
 		m := &mq{max: max, items: map[int]float32{}, name: fmt.Sprintf("q%d", len(pool))}
-		var init []*utils.PriorityQueueItem
+		init := make([]*utils.PriorityQueueItem, 0, initial+8) // the caller's list, with room to spare
 		for i := 0; i < initial; i++ {
 			p := prio()
 			id := nextId
@@ -97,6 +97,24 @@ func runCase(rec *mon.Recorder, c int) {
 			m.q = utils.NewMinPriorityQueue(init...)
 		}
 		pool = append(pool, m)
+		if initial >= 2 && c%6 == 5 {
+			// the caller goes on using its list: a second queue of the other kind is built from the same
+			// items (and a third from a prefix of them); every queue holds its own items from then on
+			for _, upto := range []int{initial, 1 + initial/2} {
+				t := &mq{max: !max, items: map[int]float32{}, name: fmt.Sprintf("q%d", len(pool))}
+				for _, it := range init[:upto] {
+					t.items[it.Value().(int)] = it.Priority()
+					ops = append(ops, op{Q: len(pool), Op: "construct-with-the-same-list", Prio: it.Priority(), Id: it.Value().(int)})
+				}
+				if t.max {
+					t.q = utils.NewMaxPriorityQueue(init[:upto]...)
+				} else {
+					t.q = utils.NewMinPriorityQueue(init[:upto]...)
+				}
+				pool = append(pool, t)
+			}
+			rec.Count("queues_constructed_from_one_shared_list", 1)
+		}
 		return m
 	}
 	initial := 0
